@@ -45,6 +45,9 @@ func (ni NodeInfo) MarshalBinary() ([]byte, error) {
 }
 
 func (ni *NodeInfo) UnmarshalBinary(b []byte) error {
+	if len(b) < len(ni.ID) {
+		return fmt.Errorf("unmarshal NodeInfo from %d bytes: need at least %d for the ID", len(b), len(ni.ID))
+	}
 	copy(ni.ID[:], b)
 	return ni.Addr.UnmarshalBinary(b[20:])
 }
